@@ -272,7 +272,8 @@ impl Sub for Action {
 					Self::Buy(v2 - v1)
 				}
 			}
-			(s1, s2) => s1 - (-s2),
+			(Self::Buy(v1), Self::Sell(v2)) => Self::Buy(v1.saturating_add(v2)),
+			(Self::Sell(v1), Self::Buy(v2)) => Self::Sell(v1.saturating_add(v2)),
 		}
 	}
 }
